@@ -139,6 +139,8 @@ def work(args):
             att = ms.run(spec, seed, stream_attack(atk[1]))
         elif atk[0] == "flood":
             att = ms.run(spec, seed, None, flood=atk[1])
+        elif atk[0] == "probe":
+            att = ms.run(spec, seed, None, probes=atk[1])
         else:
             att = ms.run(spec, seed, None)
         bad = []
@@ -149,11 +151,17 @@ def work(args):
                 bad.append(("handler-error", "%s run: %r" % (name, se.errors[:2])))
         n = len(spec.clients)
         for i, c in enumerate(spec.clients):
-            want = [b"echo:%d:client%d:round%d:" % (c["vport"], i, r) for r in range(spec.rounds)]
+            want = [b"echo:%d:client%d:round%d:" % (c["vport"] if isinstance(c["vport"], int) else c["vport"][0], i, r) for r in range(spec.rounds)]
             got = ref.got.get(i, [])
             if len(got) != spec.rounds or any(not g.startswith(w) for g, w in zip(got, want)):
                 bad.append(("reference", "reference run: client %d did not get its own echoes: %r" % (i, [g[:30] for g in got])))
-        diff = compare_views(ms.victim_view(ref), ms.victim_view(att), {ms.ATTACKER, att.flood_addr})
+        diff = compare_views(ms.victim_view(ref), ms.victim_view(att), {ms.ATTACKER, att.flood_addr} | set(att.probe_addrs))
+        if atk[0] == "probe":
+            if len(att.probe_results) != len(atk[1]):
+                bad.append(("probe-setup", "only %d of %d probes finished" % (len(att.probe_results), len(atk[1]))))
+            for vp, ty, outcome, got in att.probe_results:
+                if outcome != "failed":
+                    bad.append(("unknown-port", "a third party connecting to (port %d, stream type %d), which nobody serves, was connected (and got %r)" % (vp, ty, got)))
         if atk[0] == "flood" and att.flood_sent < atk[1]["n"]:
             bad.append(("flood-setup", "the flooding peer could send only %d of %d messages (%s)" % (att.flood_sent, atk[1]["n"], getattr(att, "flood_error", None))))
         if diff:
@@ -161,19 +169,21 @@ def work(args):
         # delivered only on the connection and port addressed
         for i, got in att.got.items():
             c = spec.clients[i]
+            cvp = c["vport"] if isinstance(c["vport"], int) else c["vport"][0]
             for g in got:
-                if not g.startswith(b"echo:%d:client%d:" % (c["vport"], i)):
-                    bad.append(("misdelivery", "client %d (vport %d) received %r" % (i, c["vport"], g[:40])))
+                if not g.startswith(b"echo:%d:client%d:" % (cvp, i)):
+                    bad.append(("misdelivery", "client %d (vport %d) received %r" % (i, cvp, g[:40])))
         for key, msgs in att.srv_got.items():
             vport, addr, sid = key
             owner = [i for i, a in att.client_addr.items() if a == addr]
             for m in msgs:
-                if not owner or not m.startswith(b"client%d:" % owner[0]) or spec.clients[owner[0]]["vport"] != vport:
+                ovp = spec.clients[owner[0]]["vport"] if owner else None
+                if not owner or not m.startswith(b"client%d:" % owner[0]) or (ovp if isinstance(ovp, int) else ovp[0]) != vport:
                     bad.append(("misdelivery", "server handler of vport %d for peer %r received %r" % (vport, addr, m[:40])))
         # traffic for unknown ports / peers creates no state
         for t, tab in att.tables:
             for vp, size in tab.items():
-                allowed = sum(1 for c in spec.clients if c["vport"] == vp) + (1 if atk[0] == "flood" and atk[1]["vport"] == vp else 0)   # the flooding peer is a valid connection
+                allowed = sum(1 for c in spec.clients if (c["vport"] if isinstance(c["vport"], int) else c["vport"][0]) == vp) + (1 if atk[0] == "flood" and atk[1]["vport"] == vp else 0)   # the flooding peer is a valid connection
                 if size > allowed:
                     bad.append(("state-created", "at t=%.3f the server holds %d connections on vport %d, only %d genuine clients exist" % (t, size, vp, allowed)))
                     break
@@ -213,7 +223,7 @@ def run(ctx):
                 "tails, splices, insertions, bit flips, length-field lies, unknown options, zero-length datagrams next to every genuine "
                 "datagram with the given intensity (to the server from its own address, with a victim's address but another port, to the "
                 "clients, and spoofed as the server), or opens a hostile stream connection (partial header, bad magic, garbage, huge "
-                "announced length), or is a perfectly valid further peer whose handler is busy and who sends 150..300 messages nobody reads; oracle: non-interference, delivery only on the addressed connection/port, no server state for "
+                "announced length), or uses the ordinary client against (port, stream type) pairs nobody serves, or is a perfectly valid further peer whose handler is busy and who sends 150..300 messages nobody reads; oracle: non-interference, delivery only on the addressed connection/port, no server state for "
                 "unknown peers, bounded decode work; the server transport of every datagram run is replayed through the Lean L1 model; "
                 "distinct non-trivial = injected hostile datagrams")
     jobs = []
@@ -244,6 +254,20 @@ def run(ctx):
             vp = sp["vports"][-1]
             ver = 0 if sp.get("server_version") == 0 else 1
             jobs.append((n, sp, ctx.rng.getrandbits(32), ("flood", dict(vport=vp, version=ver, n=ctx.rng.choice([150, 300]), size=ctx.rng.choice([1, 20]), start=ctx.rng.choice([0.05, 0.3, 0.9]))))); n += 1
+    # a third party using the ordinary client against (port, stream type) pairs nobody serves — including pairs that collide with a
+    # served one under narrower packings of (port, type) than the 8 + 8 bits the wire carries
+    pr_specs = [
+        (dict(transport="lite", server_version=1, clients=[dict(version=1, vport=1), dict(version=1, vport=17)], vports=[1, 17]),
+         [(1, 11), (161, 0), (17, 9), (33, 10), (2, 10), (1, 0), (16, 10), (241, 9)]),
+        (dict(transport="lite", server_version=1, clients=[dict(version=1, vport=(5, 3)), dict(version=1, vport=(200, 10))], vports=[(5, 3), (200, 10)]),
+         [(5, 10), (200, 3), (53, 0), (8, 12), (5, 4), (21, 2)]),
+        (dict(server_version=1, clients=[dict(version=1, vport=1), dict(version=1, vport=2)], vports=[1, 2]),
+         [(3, 10), (1, 11), (2, 0), (15, 10), (0, 10)]),
+        (dict(server_version=0, clients=[dict(version=0, vport=1)], vports=[1]),
+         [(2, 10), (1, 9)]),
+    ]
+    for sp, probes in (pr_specs[:3] if quick else pr_specs):
+        jobs.append((n, sp, ctx.rng.getrandbits(32), ("probe", probes))); n += 1
     drv = ctx.driver("C02")
     ndiff, first = 0, None
     with multiprocessing.Pool(min(16, os.cpu_count() or 4)) as pool:
@@ -252,7 +276,7 @@ def run(ctx):
                 ctx.corr_break("c07-session-harness", "session crashed in the harness", {"traceback": err, "spec": specd, "attack": atk})
                 continue
             for key, what in bad:
-                ctx.violation("c07:%s:%s" % (key, specd.get("transport", "udp") + (":" + atk[1] if atk[0] == "stream" else "") + (":flood" if atk[0] == "flood" else "")), what,
+                ctx.violation("c07:%s:%s" % (key, specd.get("transport", "udp") + (":" + atk[1] if atk[0] == "stream" else "") + (":flood" if atk[0] == "flood" else "") + (":probe" if atk[0] == "probe" else "")), what,
                               {"spec": specd, "attack": atk, "seed": seed, "how": "harness/corr_C07.py work((0, spec, seed, attack))"})
             r = l1_server_compare(drv, att) if att is not None else {"ok": True, "diffs": [], "skipped": True}
             if not r["ok"]:
@@ -263,7 +287,13 @@ def run(ctx):
             ctx.evaluations += stats.get("inj", 0)
             for i in range(stats.get("inj", 0)):
                 ctx.distinct.add((idx, i))
-            ctx.tag("%s:%s" % (specd.get("transport", "udp"), atk[1] if atk[0] != "flood" else "flood"), stats.get("inj", 0) if atk[0] != "flood" else getattr(att, "flood_sent", 0))
+            if atk[0] == "probe":
+                ctx.tag("%s:probe-unserved-port" % specd.get("transport", "udp"), len(atk[1]))
+                ctx.evaluations += len(atk[1])
+                for i in range(len(atk[1])):
+                    ctx.distinct.add((idx, "probe", i))
+            else:
+                ctx.tag("%s:%s" % (specd.get("transport", "udp"), atk[1] if atk[0] != "flood" else "flood"), stats.get("inj", 0) if atk[0] != "flood" else getattr(att, "flood_sent", 0))
             if atk[0] == "flood":
                 ctx.evaluations += getattr(att, "flood_sent", 0)
                 for i in range(getattr(att, "flood_sent", 0)):
